@@ -175,6 +175,20 @@ def run_layer(n, edges, layer, dup=None, names="plain", partial=False):
                 viol.append({"key": tag + "attr:%s" % name, "what": "valve %d (link e%d, node n%d) of layer %s: %s = %r, expected %r" % (k, j, v, layer, name, g, e)})
         if viol:
             break
+    # the optional arguments one at a time: the columns asked for (and only those) carry the same values as in the full table
+    if not viol and len(layer) <= 2:
+        for kw, cols in (({}, ["num_surround"]), ({"demand": dem}, ["num_surround", "demand_increase"]), ({"length": ln}, ["num_surround", "length_increase"])):
+            try:
+                with warnings.catch_warnings():
+                    warnings.simplefilter("ignore")
+                    a2 = wntr.metrics.valve_segment_attributes(vl, ns, ls, **kw)
+            except Exception as ex:  # noqa
+                viol.append({"key": tag + "attributes-optional-crash:%s" % type(ex).__name__, "what": "valve_segment_attributes(%s) raised %s: %s on layer %s" % (sorted(kw), type(ex).__name__, str(ex)[:80], layer)})
+                break
+            if sorted(a2.columns) != sorted(cols) or any(abs(float(a2[c_].iloc[k]) - float(attr[c_].iloc[k])) > 1e-12 for c_ in cols if c_ in a2.columns for k in range(len(layer))):
+                viol.append({"key": tag + "attributes-optional-columns", "what": "valve_segment_attributes with only %s returns columns %s = %s, the full table has %s" % (
+                    sorted(kw) or "the segments", list(a2.columns), a2.values.tolist(), attr[cols].values.tolist())})
+                break
     return viol, nseg
 
 
